@@ -4,6 +4,7 @@ import (
 	"fmt"
 	"go/token"
 	"go/types"
+	"sort"
 	"strconv"
 	"strings"
 
@@ -569,13 +570,13 @@ func ruleRequired(c *Ctx) []Ob {
 		for _, r := range referrers(t) {
 			if iff, ok := r.(*ssa.If); ok {
 				eb := iff.Block().Succs[1]
-				errOK = edgeErrors(eb) && blockCalls(eb, "newRequiredFieldNotSetException")
+				errOK = edgeErrors(eb) && blockCalls(eb, "newRequiredFieldNotSetException") || regionErrorsWith(eb, "newRequiredFieldNotSetException")
 			}
 			if u, ok := r.(*ssa.UnOp); ok && u.Op == token.NOT {
 				for _, rr := range referrers(u) {
 					if iff, ok := rr.(*ssa.If); ok {
 						eb := iff.Block().Succs[0]
-						errOK = edgeErrors(eb) && blockCalls(eb, "newRequiredFieldNotSetException")
+						errOK = edgeErrors(eb) && blockCalls(eb, "newRequiredFieldNotSetException") || regionErrorsWith(eb, "newRequiredFieldNotSetException")
 					}
 				}
 			}
@@ -604,6 +605,22 @@ func ruleRequired(c *Ctx) []Ob {
 					if ins, ok := v.(ssa.Instruction); ok {
 						for _, op := range ins.Operands(nil) {
 							walk(*op, d+1)
+						}
+					}
+					// a merge chosen by a test: the value also depends on what the test compares (the name looked up by a
+					// search loop depends on the offset it searches for)
+					if phi, ok := v.(*ssa.Phi); ok {
+						for _, pred := range phi.Block().Preds {
+							for cur, n := pred, 0; cur != nil && n < 4; n++ {
+								if iff, ok := cur.Instrs[len(cur.Instrs)-1].(*ssa.If); ok {
+									walk(iff.Cond, d+1)
+									break
+								}
+								if len(cur.Preds) != 1 {
+									break
+								}
+								cur = cur.Preds[0]
+							}
 						}
 					}
 				}
@@ -756,6 +773,38 @@ func ruleRequired(c *Ctx) []Ob {
 		}
 	}
 	return s.obs
+}
+
+// regionErrorsWith: everything dominated by b stays inside that region until it returns, and every return there carries the
+// error built by the named constructor (the failing edge may compute the message with loops of its own before returning).
+func regionErrorsWith(b *ssa.BasicBlock, name string) bool {
+	if len(b.Preds) != 1 {
+		return false
+	}
+	nRet := 0
+	for _, x := range b.Parent().Blocks {
+		if !b.Dominates(x) {
+			continue
+		}
+		for _, sc := range x.Succs {
+			if !b.Dominates(sc) {
+				return false
+			}
+		}
+		ret, ok := x.Instrs[len(x.Instrs)-1].(*ssa.Return)
+		if !ok {
+			continue
+		}
+		if len(ret.Results) == 0 {
+			return false
+		}
+		call, ok := unspill(ret.Results[len(ret.Results)-1], x).(*ssa.Call)
+		if !ok || call.Call.StaticCallee() == nil || call.Call.StaticCallee().Name() != name {
+			return false
+		}
+		nRet++
+	}
+	return nRet > 0
 }
 
 func blockCalls(b *ssa.BasicBlock, name string) bool {
@@ -1100,7 +1149,77 @@ func ruleInitDefault(c *Ctx) []Ob {
 			}
 		}
 	}
-	if inv == nil || upd == nil || initFn != dt && hcall == nil {
+	// updateIface written out: the data word (second word) of the local interface copy is set through a two-word struct cast
+	var updSt *ssa.Store
+	if upd == nil {
+		for _, b := range initFn.Blocks {
+			for _, ins := range b.Instrs {
+				st, ok := ins.(*ssa.Store)
+				if !ok || !isUnsafePointer(st.Val.Type()) {
+					continue
+				}
+				fa, ok := st.Addr.(*ssa.FieldAddr)
+				if !ok || fa.Field != 1 {
+					continue
+				}
+				pt, ok := fa.X.Type().Underlying().(*types.Pointer)
+				if !ok {
+					continue
+				}
+				stt, ok := pt.Elem().Underlying().(*types.Struct)
+				if !ok || stt.NumFields() != 2 || c.Sizes.Sizeof(stt.Field(0).Type()) != c.Sizes.Sizeof(stt.Field(1).Type()) || !isUnsafePointer(stt.Field(1).Type()) {
+					continue
+				}
+				cv, ok := fa.X.(*ssa.Convert)
+				if !ok {
+					continue
+				}
+				if cv2, ok := cv.X.(*ssa.Convert); ok {
+					if _, isAl := cv2.X.(*ssa.Alloc); isAl {
+						updSt = st
+					}
+				}
+			}
+		}
+	}
+	if updSt != nil && inv != nil && (initFn == dt || hcall != nil) {
+		under := false
+		for _, cd := range domConds(inv.Block()) {
+			if _, _, f, ok := fieldOf(cd.V); ok && f == "hasInitFunc" && cd.Truth {
+				under = true
+			}
+		}
+		al := updSt.Addr.(*ssa.FieldAddr).X.(*ssa.Convert).X.(*ssa.Convert).X.(*ssa.Alloc)
+		localCopy, sameP := false, updSt.Val == ssa.Value(ipparam)
+		if hcall != nil {
+			passed := false
+			for _, a := range hcall.Call.Args {
+				if a == pparam {
+					passed = true
+				}
+			}
+			sameP = sameP && passed
+		}
+		for _, r := range referrers(al) {
+			if st, ok := r.(*ssa.Store); ok && st.Addr == ssa.Value(al) && strings.HasSuffix(path(st.Val), ".initFunc") {
+				localCopy = true
+			}
+		}
+		invOnCopy := false
+		if u, ok := inv.Call.Value.(*ssa.UnOp); ok && u.X == ssa.Value(al) {
+			invOnCopy = true
+		}
+		order := instrDominates(updSt, inv) && (inv.Block() == tail.Block() || blockReaches(inv.Block(), tail.Block()))
+		if hcall != nil {
+			order = instrDominates(updSt, inv) && instrDominates(hcall, tail)
+		}
+		s.check(under && localCopy && sameP && invOnCopy && order, "struct-case:init", c.InstrPos(inv), "f := t.Sd.initFunc; data word of f = p; f.InitDefault() under hasInitFunc, before Decode",
+			fmt.Sprintf("InitDefault sequence is wrong: under hasInitFunc %v, local copy of initFunc %v, redirected to p %v, invoked on the copy %v, before the decode %v (a shared interface value must not be rewritten: concurrent decodes would initialise each other's objects)", under, localCopy, sameP, invOnCopy, order))
+		if ib := inv.Block(); len(ib.Preds) == 1 && hcall == nil {
+			g := ib.Preds[0]
+			s.check(g.Dominates(tail.Block()), "struct-case:both-edges", c.InstrPos(tail), "the nested decode runs with and without an init function", "the nested decode is skipped on one edge of hasInitFunc")
+		}
+	} else if inv == nil || upd == nil || initFn != dt && hcall == nil {
 		s.bad("struct-case:init", c.InstrPos(tail), "InitDefault is not invoked (through updateIface) before the nested struct is decoded: absent fields would not read as their declared defaults")
 	} else {
 		under := false
@@ -1274,7 +1393,7 @@ func init() {
 	register(&Rule{ID: "F.map-decode", Min: 5,
 		Text: "map decoding keeps key and value apart: values described by t.K are decoded into the key slot (tmp.kp or the key batch allocated from t.K.V), values described by t.V into the value slot; the pooled slots are built from t.K.RT / t.V.RT with kp/vp pointing at k/v; SetMapIndex(k, v) runs once per entry after both decodes succeeded, on the map made with MakeMapWithSize(t.RT, l); the map is published into the destination only when no entry failed",
 		Run:  ruleMapDecode})
-	register(&Rule{ID: "X.exception-kinds", Min: 5,
+	register(&Rule{ID: "X.exception-kinds", Min: 2,
 		Text: "the protocol exceptions carry the kinds the properties name: depth limit = DEPTH_LIMIT, negative length = NEGATIVE_SIZE, length/count exceeding the input = SIZE_LIMIT, missing required field and element type mismatch = INVALID_DATA",
 		Run:  ruleExceptionKinds})
 }
@@ -1610,8 +1729,16 @@ func ruleExceptionKinds(c *Ctx) []Ob {
 			}
 		}
 	}
+	// the two exceptions whose kind a property states (required field: invalid data; nesting: depth limit) must exist as such;
+	// the other constructors are checked where they exist (written out at their use, they are ordinary error returns)
+	stated := map[string]bool{"errDepthLimitExceeded": true, "newRequiredFieldNotSetException": true}
+	var wants []string
 	for o := range want {
-		if !seen[o] {
+		wants = append(wants, o)
+	}
+	sort.Strings(wants)
+	for _, o := range wants {
+		if !seen[o] && stated[o] {
 			s.bad(o, "-", "exception constructor "+o+" not found")
 		}
 	}
@@ -1626,6 +1753,9 @@ func viaMallocIfPointer(v ssa.Value, depth int) bool {
 	}
 	switch x := v.(type) {
 	case *ssa.Phi:
+		if inlineMallocIfPointer(x) {
+			return true
+		}
 		for _, e := range x.Edges {
 			if !viaMallocIfPointer(e, depth+1) {
 				return false
@@ -1651,6 +1781,79 @@ func viaMallocIfPointer(v ssa.Value, depth int) bool {
 		}
 	}
 	return false
+}
+
+// inlineMallocIfPointer: the helper written out at its call site: p = IsPointer ? Malloc(X.V...) stored into the slot : slot.
+// Every edge of the merge is either the allocation made under X.IsPointer (and installed in the slot in the same block) or the
+// slot itself on the edge where X.IsPointer is false.
+func inlineMallocIfPointer(phi *ssa.Phi) bool {
+	isPtrCond := func(conds []Cond, truth bool) string {
+		for _, cd := range conds {
+			if cd.Truth == truth && strings.HasSuffix(path(cd.V), ".IsPointer") {
+				return strings.TrimSuffix(path(cd.V), ".IsPointer")
+			}
+		}
+		return ""
+	}
+	edgeConds := func(pred, to *ssa.BasicBlock) []Cond {
+		out := domConds(pred)
+		if len(pred.Instrs) > 0 {
+			if iff, ok := pred.Instrs[len(pred.Instrs)-1].(*ssa.If); ok && len(pred.Succs) == 2 && pred.Succs[0] != pred.Succs[1] {
+				out = append(out, expandCond(Cond{V: iff.Cond, Truth: pred.Succs[0] == to, If: iff}, 0)...)
+			}
+		}
+		return out
+	}
+	nAlloc, nSlot := 0, 0
+	var slot ssa.Value
+	for i, e := range phi.Edges {
+		if call, ok := e.(*ssa.Call); ok {
+			continue_ := false
+			if f := call.Call.StaticCallee(); f != nil && shortFn(f) == "tDecoder.Malloc" && len(call.Call.Args) >= 2 {
+				d := isPtrCond(domConds(call.Block()), true)
+				if d != "" && strings.HasPrefix(path(call.Call.Args[1]), d+".V.") {
+					nAlloc++
+					continue_ = true
+				}
+			}
+			if continue_ {
+				continue
+			}
+			if call.Call.StaticCallee() != nil {
+				return false
+			}
+		}
+		if isPtrCond(edgeConds(phi.Block().Preds[i], phi.Block()), false) == "" {
+			return false
+		}
+		if slot != nil && slot != e {
+			return false
+		}
+		slot = e
+		nSlot++
+	}
+	if nAlloc == 0 || nSlot == 0 {
+		return false
+	}
+	// the allocation is installed in the slot
+	for _, e := range phi.Edges {
+		call, ok := e.(*ssa.Call)
+		if !ok || e == slot {
+			continue
+		}
+		installed := false
+		for _, r := range referrers(call) {
+			if st, ok := r.(*ssa.Store); ok && st.Val == call {
+				if cv, ok := st.Addr.(*ssa.Convert); ok && cv.X == slot {
+					installed = true
+				}
+			}
+		}
+		if !installed {
+			return false
+		}
+	}
+	return true
 }
 
 // symExpr writes an integer expression in a canonical form in which shifts and masks by powers of two read as division and
